@@ -973,15 +973,15 @@ Lemma empty_rsrc_nofunc : forall sym, rs_func empty_rsrc sym = None.
 Proof. reflexivity. Qed.
 
 (* the scenario of the seeded change C15-m3: INMATCH and READIN set, input "1", a truncated INCMP *)
-Definition m3_case : vrcase := mkVr [0; 1] (Some (s2b "1")) [s2b "root"] [0; 8; 1] OSOk [] [] [].
+Definition m3_case : vrcase := mkVr [0; 1] (Some (s2b "1")) [s2b "root"] [0; 8; 1] [] OSOk [] [] [].
 (* the same bytes with LOADFAIL set instead: the error is diverted *)
-Definition loadfail_case : vrcase := mkVr [3] (Some (s2b "1")) [s2b "root"] [0; 8; 1] OSOk [] [] [].
+Definition loadfail_case : vrcase := mkVr [3] (Some (s2b "1")) [s2b "root"] [0; 8; 1] [] OSOk [] [] [].
 (* a valid program *)
 Definition valid_case : vrcase :=
-  mkVr [] (Some (s2b "1")) [s2b "root"] (encode_prog [IMove (s2b "foo"); IHalt]) OSOk [] [] [].
+  mkVr [] (Some (s2b "1")) [s2b "root"] (encode_prog [IMove (s2b "foo"); IHalt]) [] OSOk [] [] [].
 (* a complete CATCH whose flag (200) is outside the 16-bit flag field of NewState(4) *)
 Definition flag_case : vrcase :=
-  mkVr [] (Some (s2b "1")) [s2b "root"] (encode_prog [ICatch (s2b "foo") 200 true; IHalt]) OSOk [] [] [].
+  mkVr [] (Some (s2b "1")) [s2b "root"] (encode_prog [ICatch (s2b "foo") 200 true; IHalt]) [] OSOk [] [] [].
 
 (* theorem (a) applies to the m3 scenario, for every fuel *)
 Lemma m3_rejected_all_fuel fuel :
@@ -1008,3 +1008,19 @@ Qed.
 (* the guard of the partial form of (b) holds for the driver's resource whenever LOADFAIL is clear *)
 Lemma empty_rsrc_loadfail_free v : getf (v_st v) FLAG_LOADFAIL = false -> loadfail_free empty_rsrc v.
 Proof. apply loadfail_free_nofunc. exact empty_rsrc_nofunc. Qed.
+
+(* the driver's resource since the follow-up "LOAD of a cached symbol": empty_rsrc plus one entry function
+   ("lds") that cannot fail and names no flags — the guards of (b) and (c) hold for it as well *)
+Lemma vr_rsrc_total : code_total vr_rsrc.
+Proof. exact empty_rsrc_total. Qed.
+Lemma vr_rsrc_func sym script : rs_func vr_rsrc sym = Some script -> script = [mkFres (s2b "x") false 0 [] [] false].
+Proof. cbn [vr_rsrc rs_func]. destruct (bytes_eqb sym lds_sym); [intros H; injection H as <-; reflexivity|discriminate]. Qed.
+Lemma vr_rsrc_loadfail_free v : getf (v_st v) FLAG_LOADFAIL = false -> loadfail_free vr_rsrc v.
+Proof.
+  intros Hl. split; [|exact Hl]. intros (sym & script & fr & Hf & Hin & Hfail).
+  rewrite (vr_rsrc_func _ _ Hf) in Hin. destruct Hin as [<-|[]]. discriminate Hfail.
+Qed.
+Lemma vr_rsrc_funcs_flags_ok st : funcs_flags_ok vr_rsrc st.
+Proof.
+  intros key script fr Hf Hin. rewrite (vr_rsrc_func _ _ Hf) in Hin. destruct Hin as [<-|[]]. reflexivity.
+Qed.
